@@ -622,7 +622,9 @@ class Prop(PropBase):
     stubs = ["cycle driver (stimulus)", "host design that carries the emission sites",
              "signal resolver of the sampler (replays the site signals recorded by the driver)"]
     search_space = "emission-site sets, module contexts and trigger / field / request histories"
-    assumptions = ["enum-typed fields carry member values only (a non-member cannot be decoded and is outside the statement)",
+    assumptions = ["emission sites are matched to the registered event records by registration order; the raw record format is taken "
+                   "as the library's capture process produces it",
+                   "enum-typed fields carry member values only (a non-member cannot be decoded and is outside the statement)",
                    "the cycle of a record is the library's tick counter (TicksKey), which counts clock edges from 0",
                    "no I/O faults are injected: the property states none"]
 
